@@ -674,3 +674,134 @@ SUBCHECKS = [
              rule='non-trivial = the group contains at least one inconsistent combination',
              doc='exhaustive lengths 0..6: ValueError iff inconsistent; consistent ones construct and step'),
 ]
+
+
+# ----------------------------------------------------------------------------
+# user-supplied coefficient sets: the generic IMEX-RK / low-storage drivers equal their definition, and building an
+# integrator never changes the coefficient containers it was given (history: the same arrays are reused)
+
+
+_COEF = [0.0, 0.0, 0.5, 1.0, 1 / 3, 0.25, -0.5, 0.75, 1 / 6]
+
+
+@st.composite
+def _generic_case(draw):
+  d = draw(st.integers(1, 3))
+  s_ = draw(st.integers(2, 4))
+  c = lambda: draw(st.sampled_from(_COEF))   # noqa: E731
+  a_ex = [[c() for _ in range(i + 1)] for i in range(s_ - 1)]
+  a_im = [[c() for _ in range(i + 1)] + [draw(st.sampled_from([0.0, 0.25, 0.5, 1 / 3, 1.0]))] for i in range(s_ - 1)]
+  b_ex = [c() for _ in range(s_)]
+  b_im = [c() for _ in range(s_)]
+  if draw(st.booleans()):       # stiffly accurate implicit part (a common special case), explicit weights free
+    b_im = list(a_im[-1])
+    if draw(st.booleans()):
+      b_ex = list(a_ex[-1]) + [0.0]
+  n_low = draw(st.integers(1, 4))
+  alphas = sorted(draw(st.sampled_from([0.0, 0.2, 1 / 3, 0.5, 0.6, 0.75, 1.0])) for _ in range(n_low - 1))
+  low = {'alphas': [0.0] + alphas + [1.0] if n_low > 1 else [0.0, 1.0],
+         'betas': None, 'gammas': None}
+  k = len(low['alphas']) - 1
+  low['betas'] = [0.0] + [draw(st.sampled_from([-0.5, -1.0, -0.25, 0.0])) for _ in range(k - 1)]
+  low['gammas'] = [draw(st.sampled_from([1.0, 0.5, 0.75, 0.25])) for _ in range(k)]
+  return {'dim': d, 'a_ex': a_ex, 'a_im': a_im, 'b_ex': b_ex, 'b_im': b_im, 'low': low,
+          'seed': draw(st.integers(0, 9999)), 'log10_h': draw(st.sampled_from([-2.0, -1.0, -0.5, 0.0])),
+          'containers': draw(st.sampled_from(['list', 'ndarray', 'tuple'])), 'builds': draw(st.integers(1, 3))}
+
+
+def _generic_problem(case):
+  rng = np.random.default_rng([int(case['seed']), 5])
+  d = case['dim']
+  A = rng.standard_normal((d, d)) * 0.7
+  B = rng.standard_normal((d, d)) * 0.5
+  Gm = -np.abs(rng.standard_normal((d, d))) * 0.8 - np.eye(d) * 0.5 + np.triu(rng.standard_normal((d, d)), 1)
+  u0 = rng.standard_normal(d)
+  return A, B, Gm, u0
+
+
+def _np_imex_rk(a_ex, a_im, b_ex, b_im, F, Gm, u0, h):
+  """The IMEX Runge-Kutta definition (stage 0 explicit; stage i solves for Y_i with diagonal a_im[i-1][i])."""
+  s_ = len(b_ex)
+  Y = [u0]
+  f, g = [F(u0)], [Gm @ u0]
+  eye = np.eye(len(u0))
+  for i in range(1, s_):
+    rhs = u0 + h * sum(a_ex[i - 1][j] * f[j] for j in range(i)) + h * sum(a_im[i - 1][j] * g[j] for j in range(i))
+    Yi = np.linalg.solve(eye - h * a_im[i - 1][i] * Gm, rhs)
+    Y.append(Yi)
+    f.append(F(Yi))
+    g.append(Gm @ Yi)
+  return u0 + h * sum(b_ex[j] * f[j] for j in range(s_)) + h * sum(b_im[j] * g[j] for j in range(s_))
+
+
+def _np_low_storage(alphas, betas, gammas, F, Gm, u0, h):
+  """Low-storage RK (explicit part, 2N storage) with Crank-Nicolson sub-steps for the linear part:
+  for k: Fk = F(u) + beta_k F_{k-1};  u <- (I - mu G)^-1 (u + gamma_k h Fk + mu G u),  mu = h (alpha_{k+1}-alpha_k)/2."""
+  u, Fk = u0, 0.0
+  eye = np.eye(len(u0))
+  for k in range(len(betas)):
+    Fk = F(u) + betas[k] * Fk
+    mu = 0.5 * h * (alphas[k + 1] - alphas[k])
+    u = np.linalg.solve(eye - mu * Gm, u + gammas[k] * h * Fk + mu * (Gm @ u))
+  return u
+
+
+def run_generic(case):
+  import copy
+  import jax.numpy as jnp
+  from dinosaur import time_integration as ti
+  A, B, Gm, u0 = _generic_problem(case)
+  h = 10.0 ** case['log10_h']
+  F_np = lambda u: A @ u + B @ np.tanh(u)   # noqa: E731
+  eq = ti.ImplicitExplicitODE.from_functions(
+      lambda u: jnp.asarray(A) @ u + jnp.asarray(B) @ jnp.tanh(u),
+      lambda u: jnp.asarray(Gm) @ u,
+      lambda u, eta: jnp.linalg.solve(jnp.eye(len(u0)) - eta * jnp.asarray(Gm), u))
+  wrap = {'list': lambda x: copy.deepcopy(x), 'tuple': lambda x: tuple(tuple(r) if isinstance(r, list) else r for r in x),
+          'ndarray': lambda x: (np.array(x, dtype=np.float64) if not isinstance(x[0], list) else [np.array(r, dtype=np.float64) for r in x])}[case['containers']]
+  stiffly = list(case['b_im']) == list(case['a_im'][-1])
+  out = Outcome(units=0, nontrivial=len(case['b_ex']) >= 3 and np.any(Gm != 0),
+                labels=[f"stages={len(case['b_ex'])}", f"containers={case['containers']}", f"builds={case['builds']}",
+                        'implicit_stiffly_accurate' if stiffly else 'general_weights',
+                        'b_ex==last_row' if list(case['b_ex']) == list(case['a_ex'][-1]) + [0.0] else 'b_ex_free'])
+  scale = max(1.0, float(np.abs(u0).max()))
+  # generic IMEX-RK driver
+  a_ex, a_im, b_ex, b_im = (wrap(case[k]) for k in ('a_ex', 'a_im', 'b_ex', 'b_im'))
+  want = _np_imex_rk(case['a_ex'], case['a_im'], case['b_ex'], case['b_im'], F_np, Gm, u0, h)
+  for n_build in range(case['builds']):
+    tab = ti.ImExButcherTableau(a_ex=a_ex, a_im=a_im, b_ex=b_ex, b_im=b_im)
+    got = np.asarray(ti.imex_runge_kutta(tab, eq, h)(jnp.asarray(u0)))
+    out.units += 1
+    err = core.relerr(got, want, scale=max(scale, float(np.abs(want).max())))
+    if not err <= 1e-9:
+      return out.fail(what='imex_runge_kutta(tableau) differs from the IMEX Runge-Kutta definition', relerr=err,
+                      build_number=n_build + 1, got=got, want=want, h=h)
+  # low-storage driver, the same coefficient containers reused for every build (and for a second step size)
+  low = case['low']
+  al, be, ga = wrap(low['alphas']), wrap(low['betas']), wrap(low['gammas'])
+  for n_build in range(case['builds']):
+    for hh in (h, 0.5 * h):
+      want = _np_low_storage(low['alphas'], low['betas'], low['gammas'], F_np, Gm, u0, hh)
+      got = np.asarray(ti.low_storage_runge_kutta_crank_nicolson(al, be, ga, eq, hh)(jnp.asarray(u0)))
+      out.units += 1
+      err = core.relerr(got, want, scale=max(scale, float(np.abs(want).max())))
+      if not err <= 1e-9:
+        return out.fail(what='low_storage_runge_kutta_crank_nicolson differs from its definition', relerr=err,
+                        build_number=n_build + 1, h=hh, got=got, want=want, alphas=low['alphas'], betas=low['betas'],
+                        gammas=low['gammas'])
+  for name, given, orig in (('alphas', al, low['alphas']), ('betas', be, low['betas']), ('gammas', ga, low['gammas']),
+                            ('b_ex', b_ex, case['b_ex']), ('b_im', b_im, case['b_im'])):
+    if not np.array_equal(np.asarray(given, dtype=np.float64), np.asarray(orig, dtype=np.float64)):
+      return out.fail(what='building / stepping an integrator modified the coefficient container it was given',
+                      container=name, before=orig, after=np.asarray(given))
+  return out
+
+
+SUBCHECKS.append(
+    Subcheck('generic_tableaux', run_generic, strategy=lambda tier: _generic_case(),
+             examples={'quick': 60, 'thorough': 1500}, shards={'quick': 2, 'thorough': 6},
+             wall={'quick': 300.0, 'thorough': 2400.0}, weight=3,
+             rule='non-trivial = >= 3 stages and a non-zero implicit operator',
+             doc='imex_runge_kutta / low_storage_runge_kutta_crank_nicolson with generated coefficient sets (lists, '
+                 'tuples, ndarrays; built 1-3 times from the same containers) equal a numpy implementation of their '
+                 'definition and leave the containers unchanged'))
